@@ -535,6 +535,9 @@ def _run(ctx, nscen, max_points, nlocal, rep):
     cache_kill_probe(ctx, rep, max(4, nlocal // 10))
     local_os_fault_probe(ctx, rep, max(4, nlocal // 10))
     localbuf_correspondence(ctx, rep, max(16, nlocal // 3))
+    # two uploads of one object name that overlap in time must never publish a mixture (each writer needs a temporary of its own)
+    from harness import c02 as _c02
+    _c02.local_overlap_probe(ctx, rep)
     # real kills: `python -m replicat` processes on a repository on disk, SIGKILLed at the k-th rename / unlink / temp-file creation
     # (before or after it), and single OSErrors out of directory scans; afterwards everything visible must be whole and usable
     from harness import cli_hist
